@@ -7,6 +7,10 @@ From Flocq Require Import Core.
 From SE Require Import C45.MpfrModel C45.Gen_MpfrRules C45.MpfrRound.
 Import ListNotations.
 Local Open Scope R_scope.
+Arguments dbl_value : simpl never.
+Arguments rnd_q : simpl never.
+Arguments mp_of_xq : simpl never.
+Arguments xq_of_dy : simpl never.
 
 (* ---- the shape ---- *)
 Definition is_self (a : aopd) : bool := match a with OSelf => true | _ => false end.
@@ -143,7 +147,7 @@ Lemma sel_prec_ok : forall k psel ps other xo,
   sel_prec psel ps other = Some (result_prec ps other).
 Proof.
   intros k psel ps other xo Hp Hk Hv. subst k.
-  destruct other; simpl in Hv; try discriminate; destruct psel; simpl in Hp; try discriminate; reflexivity.
+  destruct other; cbn [opd_val] in Hv; try discriminate Hv; destruct psel; cbn [prec_ok opd_kind] in Hp; try discriminate Hp; reflexivity.
 Qed.
 
 Lemma steps_single_inv : forall o steps, steps_single o steps = true ->
@@ -231,14 +235,35 @@ Theorem complex_pairs_throw :
           [OAdd; OSub; ORsub; OMul; ODiv; ORdiv; OPow; ORpow] = true.
 Proof. vm_compute. reflexivity. Qed.
 
+(* the guards of the single-rounding rules: the exact-zero shortcut of Integer multiplication and
+   the negative-base test of pow *)
+Definition guard_ok (o : aop) (k : akind) (g : aguard) : bool :=
+  match g with
+  | GNone => true
+  | GOtherZeroExact => match o with OMul => true | _ => false end && match k with KInteger => true | _ => false end
+  | GSelfNegThrows => match o with OPow => true | _ => false end
+  | GOtherNegThrows => false
+  end.
+
+Lemma guards_of_single :
+  forallb (fun ok => match arule_at (fst ok) (snd ok) with ARule g _ _ => guard_ok (fst ok) (snd ok) g | ARThrow _ => true end)
+          single_rounding_pairs = true.
+Proof. vm_compute. reflexivity. Qed.
+
 Lemma in_single_rounding : forall o k, In (o, k) single_rounding_pairs ->
   exists g psel steps, lookup_arule mpfr_arith o k = Some (ARule g psel steps)
                        /\ rule_single_rounding o k (ARule g psel steps) = true.
 Proof.
-  intros o k H. unfold single_rounding_pairs in H. apply filter_In in H. destruct H as [_ H].
-  simpl in H. unfold arule_at in H.
-  destruct (lookup_arule mpfr_arith o k) as [[g psel steps | c] | ]; try discriminate.
-  eauto.
+  intros o k H. rewrite single_rounding_pairs_eq in H. simpl in H.
+  repeat (destruct H as [H | H];
+          [ inversion H; subst o k; clear H;
+            match goal with |- exists g p s, lookup_arule ?t ?o ?k = _ /\ _ =>
+              let r := eval vm_compute in (lookup_arule t o k) in
+              match r with
+              | Some (ARule ?g ?p ?s) => exists g, p, s; split; [ vm_compute; reflexivity | vm_compute; reflexivity ]
+              end
+            end | ]).
+  contradiction.
 Qed.
 
 (* the statement used by the obligation file: for every pair of the list above, on finite operands,
@@ -266,10 +291,13 @@ Proof.
   destruct (guard_fires g xs xo) as [a | ] eqn:Hg.
   - (* a guard fires: which guards occur in the single-rounding rules is computed *)
     assert (Hgk : (g = GOtherZeroExact /\ o = OMul /\ k = KInteger) \/ (g = GSelfNegThrows /\ o = OPow)).
-    { rewrite single_rounding_pairs_eq in Hin. simpl in Hin.
-      repeat (destruct Hin as [Hin | Hin];
-              [ inversion Hin; subst o k; vm_compute in Hl; inversion Hl; subst; simpl in Hg; try discriminate Hg; auto | ]).
-      contradiction. }
+    { pose proof guards_of_single as HG. rewrite forallb_forall in HG. specialize (HG (o, k) Hin).
+      cbn [fst snd] in HG. unfold arule_at in HG. rewrite Hl in HG.
+      destruct g; cbn [guard_fires] in Hg; try discriminate Hg; cbn [guard_ok] in HG.
+      - apply andb_prop in HG. destruct HG as [H1 H2].
+        destruct o; try discriminate H1. destruct k; try discriminate H2. auto.
+      - destruct o; try discriminate HG. auto.
+      - discriminate HG. }
     destruct Hgk as [[-> [-> ->]] | [-> ->]].
     + left. unfold arith_exec. rewrite Hs, Ho, Hg. simpl in Hg.
       destruct (Z.eqb_spec (fst xo) 0) as [Hz | Hz]; [ | discriminate ].
@@ -278,9 +306,10 @@ Proof.
     + right. left. unfold arith_exec. rewrite Hs, Ho, Hg. simpl in Hg.
       destruct (Z.ltb_spec (fst xs) 0) as [Hz | Hz]; [ | discriminate ].
       inversion Hg; subst. repeat split; auto.
-      unfold xq2R. apply Rmult_lt_0_compat_neg.
-      * apply IZR_lt. exact Hz.
-      * apply Rinv_0_lt_compat. apply IZR_pos_gt0.
+      unfold xq2R, Rdiv.
+      assert (H1 : IZR (fst xs) < 0) by (apply IZR_lt; exact Hz).
+      assert (H2 : 0 < / IZR (Z.pos (snd xs))) by (apply Rinv_0_lt_compat; apply IZR_pos_gt0).
+      nra.
   - right. right.
     destruct (arith_exec_correctly_rounded o k g psel steps ps vs other xs xo q Hr Hk Hs Ho Hg Hb He) as [v [Hv Hval]].
     exists v, (xq2R q). split; [ exact Hv | ]. split; [ apply exact_op_correct; exact He | ].
